@@ -2853,7 +2853,10 @@ func (d *decoderMsgpackBytes) arrayEnd() {
 func (d *decoderMsgpackBytes) interfaceExtConvertAndDecode(v interface{}, ext InterfaceExt) {
 
 	var vv interface{}
+
+	d.depthIncr()
 	d.decode(&vv)
+	d.depthDecr()
 	ext.UpdateExt(v, vv)
 
 }
@@ -6893,7 +6896,10 @@ func (d *decoderMsgpackIO) arrayEnd() {
 func (d *decoderMsgpackIO) interfaceExtConvertAndDecode(v interface{}, ext InterfaceExt) {
 
 	var vv interface{}
+
+	d.depthIncr()
 	d.decode(&vv)
+	d.depthDecr()
 	ext.UpdateExt(v, vv)
 
 }
